@@ -227,12 +227,26 @@ def module_mutates(mod, name):
 
 def heap_mutating(E, fnode, mod, clsnode, depth):
     """syntactic over-approximation: the function (or an un-contracted repository function it calls on self) writes to the heap"""
+    def private_state(t1):
+        """`self.x = ...` where x is a field no sidecar declaration mentions and of simple immutable type: private state, which the
+        engine reads as an arbitrary value anyway -- writing it changes nothing a loop invariant could speak about"""
+        if not (isinstance(t1, ast.Attribute) and isinstance(t1.value, ast.Name) and t1.value.id == "self" and clsnode is not None):
+            return False
+        try:
+            from .builtins_ import declared_fields, infer_attr_type
+            key = "%s:%s" % (mod.rel, clsnode.name)
+            cd = CLASSES.get(key)
+            if cd is None or t1.attr in declared_fields(cd):
+                return False
+            return infer_attr_type(E, key, t1.attr) is not None
+        except Exception:
+            return False
     for n in ast.walk(fnode):
         if isinstance(n, (ast.Assign, ast.AugAssign, ast.AnnAssign)):
             tg = n.targets if isinstance(n, ast.Assign) else [n.target]
             for t in tg:
                 for t1 in (t.elts if isinstance(t, (ast.Tuple, ast.List)) else [t]):
-                    if isinstance(t1, (ast.Attribute, ast.Subscript)):
+                    if isinstance(t1, (ast.Attribute, ast.Subscript)) and not private_state(t1):
                         return True
         elif isinstance(n, ast.Delete):
             if any(isinstance(t, (ast.Attribute, ast.Subscript)) for t in n.targets):
